@@ -36,7 +36,8 @@ def rule_provenance(ctx):
                 how = ("high_qc() of the certificate argument `%s` of %s (itself covered at its call sites)" % (show(base), where)) if base[0] in ("upvar", "param") else None
                 ok = how is not None
             # (a) inside the handled message
-            elif any(common.is_p(x, common.pnames(f, "::Signed<")) for x in subs):
+            elif common.is_p(chain(qc)[0], common.pnames(f, "::Signed<")) and not any(x[0] in ("call", "await") for x in subs):
+                # a pure field path into the handled message (no lookup keyed by a message field: that is case (b))
                 sm_names = common.pnames(f, "::Signed<")
                 e = Q.success_edges(ctx, f, lambda b: b[0] == "call" and b[1].endswith(("LeaderProposal::verify", "ReplicaNewView::verify", "ReplicaTimeout::verify", "ReplicaCommit::verify")) and any(common.is_p(y, sm_names) for y in subterms(b)))
                 ok = bool(e) and cfg.must_pass(c["bb"], e)
